@@ -872,6 +872,27 @@ class _Inliner:
             visit_AsyncFunctionDef = visit_FunctionDef
             visit_Lambda = visit_FunctionDef
 
+            def visit_Await(self, node):
+                # `await helper(..)` with an async helper whose body is one returned expression: that expression, evaluated here
+                if isinstance(node.value, ast.Call):
+                    h = outer.resolve(node.value, cls, fn_stack, helpers)
+                    if h is not None and isinstance(h[0], ast.AsyncFunctionDef) and h[0] not in fn_stack and isinstance(fn_stack[-1], ast.AsyncFunctionDef):
+                        e = _expr_bodied(h[0])
+                        if e is not None:
+                            for k, a in enumerate(node.value.args):
+                                node.value.args[k] = self.visit(a)
+                            try:
+                                prefix, mapping = _bind(h[0], node.value, h[1])
+                            except _NotInlinable:
+                                return node
+                            if not prefix:
+                                outer.count += 1
+                                outer.inlined_helpers[id(h[0])] = outer.inlined_helpers.get(id(h[0]), 0) + 1
+                                return ast.copy_location(_Renamer(mapping).visit(copy.deepcopy(e)), node)
+                            return node
+                self.generic_visit(node)
+                return node
+
             def visit_Call(self, node):
                 self.generic_visit(node)
                 h = outer.resolve(node, cls, fn_stack, helpers)
@@ -1913,7 +1934,7 @@ def _cm_class(cls, call, var, body):
     exc_params = {a.arg for a in exit_.args.args[1:]}
     ebody = [_clone(s_) for s_ in _helper_body(exit_)]
     if any(isinstance(n, ast.Name) and n.id in exc_params for s_ in ebody for n in ast.walk(s_)):
-        raise _NotInlinable("__exit__ looks at the exception")
+        return out + _cm_class_handlers(cls, exit_, enter, ebody, fields, var, body, suffix, call)
     # __exit__ must end by returning False / None (exceptions propagate)
     if ebody and isinstance(ebody[-1], ast.Return):
         r = ebody.pop()
@@ -1951,6 +1972,85 @@ def _cm_class(cls, call, var, body):
     return out + nbody + [ast.Try(body=body, handlers=[], orelse=[], finalbody=ebody or [ast.Pass()])]
 
 
+def _cm_class_handlers(cls, exit_, enter, ebody, fields, var, body, suffix, call):
+    """__exit__ that looks at the exception: `with CM(): B` -> `try: B except <E> as e: ...` when __exit__ does nothing on a normal exit.
+    The method is partially evaluated for `exc_type is None` (normal exit: must leave nothing to do) and for an exception
+    (exc_type -> type(e), exc -> e, tb -> e.__traceback__; `return False/None` -> re-raise, `return True` -> swallow)."""
+    from . import specialize as _sp
+    et, ev, tb = [a.arg for a in exit_.args.args[1:]]
+    if var is not None:
+        raise _NotInlinable("bound manager with exception-aware __exit__")
+    nbody = [s_ for s_ in _helper_body(enter) if not (isinstance(s_, ast.Return) and (s_.value is None or (isinstance(s_.value, ast.Name) and s_.value.id == "self") or isinstance(s_.value, ast.Constant)))]
+    if nbody:
+        raise _NotInlinable("__enter__ does work")
+    if any(isinstance(n, ast.Name) and n.id in (et, ev, tb) and isinstance(n.ctx, (ast.Store, ast.Del)) for s_ in ebody for n in ast.walk(s_)):
+        raise _NotInlinable("__exit__ rebinds its parameters")
+    for s_ in ebody:
+        for n in ast.walk(s_):
+            if isinstance(n, ast.Attribute) and isinstance(n.value, ast.Name) and n.value.id == "self" and n.attr not in fields:
+                raise _NotInlinable("self attribute outside __init__")
+            if isinstance(n, FUNC + (ast.Lambda,)):
+                raise _NotInlinable("nested scope in __exit__")
+    none_facts = {f"{et} is None": True, f"{ev} is None": True, f"{et} is not None": False, f"{ev} is not None": False, et: False, ev: False}
+    quiet = _sp._block([_clone(s_) for s_ in ebody], none_facts)
+    quiet = [s_ for s_ in quiet if not isinstance(s_, (ast.Pass, ast.Return))]
+    if quiet:
+        raise _NotInlinable("__exit__ acts on a normal exit")
+    exc_facts = {k: (not v) for k, v in none_facts.items()}
+    loud = _sp._block([_clone(s_) for s_ in ebody], exc_facts)
+    ename = "exc" + suffix
+
+    class Sub(ast.NodeTransformer):
+        def visit_Name(self, node):
+            if node.id == et:
+                return ast.copy_location(ast.Call(func=ast.Name(id="type", ctx=ast.Load()), args=[ast.Name(id=ename, ctx=ast.Load())], keywords=[]), node)
+            if node.id == ev:
+                return ast.copy_location(ast.Name(id=ename, ctx=ast.Load()), node)
+            if node.id == tb:
+                return ast.copy_location(ast.Attribute(value=ast.Name(id=ename, ctx=ast.Load()), attr="__traceback__", ctx=ast.Load()), node)
+            if node.id == "self":
+                raise _NotInlinable("self escapes")
+            return node
+
+        def visit_Attribute(self, node):
+            if isinstance(node.value, ast.Name) and node.value.id == "self":
+                return ast.copy_location(ast.Name(id=fields[node.attr], ctx=node.ctx), node)
+            self.generic_visit(node)
+            return node
+
+        def visit_Return(self, node):
+            v = node.value
+            if v is None or (isinstance(v, ast.Constant) and not v.value):
+                return ast.copy_location(ast.Raise(exc=None, cause=None), node)      # the exception goes on
+            if isinstance(v, ast.Constant) and v.value:
+                return ast.copy_location(ast.Return(value=None), node)               # swallowed: the handler ends here
+            raise _NotInlinable("__exit__ returns a computed value")
+    loud = [Sub().visit(s_) for s_ in loud]
+    if not _always_returns(loud):
+        loud.append(ast.Raise(exc=None, cause=None))
+    loud = _conv(loud, "stmt", None)
+    # `if issubclass(type(e), E): <leaves>` at the head of the handler is an `except E` clause of its own
+    handlers = []
+    while loud and isinstance(loud[0], ast.If) and not loud[0].orelse and _always_exits(loud[0].body):
+        t = loud[0].test
+        kind = None
+        if isinstance(t, ast.Call) and isinstance(t.func, ast.Name) and len(t.args) == 2 and not t.keywords:
+            a0 = t.args[0]
+            if t.func.id == "issubclass" and isinstance(a0, ast.Call) and isinstance(a0.func, ast.Name) and a0.func.id == "type" and len(a0.args) == 1 and \
+                    isinstance(a0.args[0], ast.Name) and a0.args[0].id == ename:
+                kind = t.args[1]
+            elif t.func.id == "isinstance" and isinstance(a0, ast.Name) and a0.id == ename:
+                kind = t.args[1]
+        if kind is None:
+            break
+        handlers.append(ast.ExceptHandler(type=kind, name=ename, body=loud[0].body))
+        loud = loud[1:]
+    if not (len(loud) == 1 and isinstance(loud[0], ast.Raise) and loud[0].exc is None):
+        handlers.append(ast.ExceptHandler(type=ast.Name(id="BaseException", ctx=ast.Load()), name=ename, body=loud or [ast.Pass()]))
+    tr = ast.Try(body=body, handlers=handlers, orelse=[], finalbody=[])
+    return [tr] if handlers else list(body)
+
+
 def _rewrite_context_managers(modname, tree, inv):
     units = _new_units(modname, tree, inv)
     n_done = 0
@@ -1981,7 +2081,9 @@ def _rewrite_context_managers(modname, tree, inv):
             elif isinstance(n, ast.ClassDef):
                 yield from all_funcs(n.body, n.name)
     for f_, klass in list(all_funcs(tree.body, None)):
-        if any(f_ is u or f_ in ast.walk(u) for u in units.values() if isinstance(u, (ast.ClassDef,) + FUNC) and (isinstance(u, ast.ClassDef) or any(_is_cm_decorator(d) for d in u.decorator_list))):
+        if any(f_ is u or f_ in ast.walk(u) for u in units.values() if
+               (isinstance(u, ast.ClassDef) and any(isinstance(m_, FUNC) and m_.name == "__exit__" for m_ in u.body)) or
+               (isinstance(u, FUNC) and any(_is_cm_decorator(d) for d in u.decorator_list))):
             continue        # not inside the managers themselves
         for _ in range(2):
             visit_blocks(f_, klass)
